@@ -23,7 +23,7 @@ func other() string { return "x" }
 func H_C08_name_table_installed() {
 	defer symx.FSCleanup()
 	flagSeed = seedFlag{}
-	if symx.Choose(2) == 1 {
+	if symx.Choose(tier(1, 2)) == 1 { // thorough: also with a seed
 		flagSeed = seedFlag{bytes: symx.Bytes("seed", 8)}
 	}
 	symx.Stub("mvdan.cc/garble.hashWithCustomSalt", c13HashSummary)
@@ -34,6 +34,7 @@ func H_C08_name_table_installed() {
 	symx.Assume(id2[0] != id[0])
 	var lpkg *listedPackage
 	if symx.Symbolic() {
+		reflectAbiCode = genReflectAbiCode // a go:embed variable, not initialised inside the engine
 		lpkg = c13Engine("main", c08MainSrc, mainObf, id, id2)
 	} else {
 		defer c13Native("main", c08MainSrc, mainObf)()
